@@ -9,6 +9,7 @@ Import ListNotations.
 Open Scope string_scope.
 
 Definition c20_pkg_vars : list pkgvar := [
+  mkvar "bits" "ErrExpGolombRange" TError false [];
   mkvar "bits" "ErrNotReadSeeker" TError false [];
   mkvar "bits" "ErrSliceRead" TError false [];
   mkvar "bits" "ErrSliceWrite" TError false [];
